@@ -48,12 +48,16 @@ type table struct {
 	spell   map[string]bool // every spelling the operator detector knows (Bin, Un, "=", "->")
 	prefix  map[string]bool // every non-empty prefix of a spelling (the nodes of the trie)
 	maxLen  int
-	deadEnd bool // greedy trie walk and longest match can disagree on some text
+	deadEnd bool              // greedy trie walk and longest match can disagree on some text
+	rt      *gx.Table         // the table with placeholder spellings $A $B ... (see renderings)
+	ph      map[string]string // spelling -> placeholder
+	unph    map[string]string // placeholder -> spelling
+	class   string            // "pool" (enumerated from the pool) or the name of the hand-written family
 }
 
 func newTable(bin, un []string, alias string) *table {
 	t := &table{Table: gx.Table{Bin: append([]string(nil), bin...), Un: append([]string(nil), un...)}, Alias: alias,
-		isUn: map[string]bool{}, spell: map[string]bool{"=": true, "->": true}}
+		class: "pool", isUn: map[string]bool{}, spell: map[string]bool{"=": true, "->": true}}
 	for _, u := range un {
 		t.isUn[u] = true
 		t.spell[u] = true
@@ -69,6 +73,23 @@ func newTable(bin, un []string, alias string) *table {
 		for i := 1; i <= len(s); i++ {
 			t.prefix[s[:i]] = true
 		}
+	}
+	// placeholders: gx.Render writes text and puts nested prefix operators (and, with Sep "", a binary
+	// and a following prefix operator) side by side, which maximal munch may read as another operator
+	// ("==a" for =(=a)). Rendering is therefore done with unambiguous two-character placeholders and
+	// the decision which real spellings may touch is left to layout.
+	t.ph, t.unph, t.rt = map[string]string{}, map[string]string{}, &gx.Table{}
+	for i, b := range t.Bin {
+		p := "$" + string(rune('A'+i))
+		t.ph[b], t.unph[p] = p, b
+		t.rt.Bin = append(t.rt.Bin, p)
+	}
+	for i, u := range t.Un {
+		if _, ok := t.ph[u]; !ok {
+			p := "$" + string(rune('a'+i))
+			t.ph[u], t.unph[p] = p, u
+		}
+		t.rt.Un = append(t.rt.Un, t.ph[u])
 	}
 	// dead end: a proper prefix p of a spelling that is not a spelling itself while a shorter
 	// non-empty prefix of p is one: the greedy walk passes the shorter spelling and gets stuck in p.
@@ -226,6 +247,9 @@ func (t *table) lex(src string) ([]tok, bool) {
 				out = append(out, tok{k: kIdent, s: w})
 			}
 			i = j
+		case c == '$' && i+1 < len(src) && t.unph[src[i:i+2]] != "":
+			out = append(out, tok{k: kOp, s: t.unph[src[i:i+2]]})
+			i += 2
 		case strings.IndexByte("()[].,:", c) >= 0:
 			out = append(out, tok{k: kPunct, s: string(c)})
 			i++
